@@ -122,10 +122,10 @@ def dec_idx(s):
         a, b, c = r.split(":")
         f = lambda x: None if x == "N" else int(x)  # noqa: E731
         return ("slice", (f(a), f(b), f(c)))
-    if k in "mnb":
-        return ({"m": "mask", "n": "nmask", "b": "blist"}[k], [c == "1" for c in r])
-    if k in "aul":
-        return ({"a": "arr", "u": "uarr", "l": "list"}[k], untoks(r) if r else [])
+    if k in "mnbr":
+        return ({"m": "mask", "n": "nmask", "b": "blist", "r": "rmask"}[k], [c == "1" for c in r])
+    if k in "aulw":
+        return ({"a": "arr", "u": "uarr", "l": "list", "w": "warr"}[k], untoks(r) if r else [])
     if k == "e":
         return ("ell", None)
     raise ValueError("bad index " + s)
@@ -139,30 +139,65 @@ def idx_class(s):
         return "slice-negstep" if (p[2] or 1) < 0 else "slice"
     if k == "nmask":
         return "mask-noncontig"
+    if k == "rmask":
+        return "mask-readonly"
+    if k == "warr":
+        return "arr-byteswapped"
     if k in ("arr", "uarr", "list"):
         return k + ("-neg" if any(x < 0 for x in p) else "")
     return k
 
 
+def _fits(xs, dt):
+    import numpy as np
+    ii = np.iinfo(dt)
+    return all(ii.min <= x <= ii.max for x in xs)
+
+
 def np_index(s):
+    """The index object for a protocol token.  The *spelling* (python int vs NumPy scalar of some width, dtype of an
+    index array, strided / read-only views) is chosen deterministically from the token text: the same value in
+    another spelling must behave the same, so the model does not see it."""
     import numpy as np
     k, p = dec_idx(s)
+    h = sum(ord(c) for c in s)
     if k == "int":
-        return p
+        types = [None, np.int8, np.int16, np.int32, np.int64] + ([np.uint8, np.uint16, np.uint32, np.uint64] if p >= 0 else [])
+        t = types[h % len(types)]
+        return p if t is None or not _fits([p], t) else t(p)
     if k == "slice":
-        return slice(*p)
+        if h % 3 == 0:
+            return slice(*p)
+        t = (np.int64, np.int16)[h % 2]
+        return slice(*[None if x is None else (t(x) if _fits([x], t) else x) for x in p])
     if k == "mask":
         return np.array(p, dtype=bool)
+    if k == "rmask":
+        m = np.array(p, dtype=bool)
+        m.flags.writeable = False
+        return m
     if k == "nmask":
         full = np.zeros(2 * len(p), dtype=bool)
         full[::2] = p
         return full[::2]
     if k == "blist":
         return list(p)
-    if k == "arr":
-        return np.array(p, dtype=np.int64)
-    if k == "uarr":
-        return np.array(p, dtype=np.uint32)
+    if k in ("arr", "uarr"):
+        types = [np.int64, np.int32, np.int16, np.int8] if k == "arr" else [np.uint32, np.uint8, np.uint16, np.uint64]
+        t = types[h % 4]
+        if not _fits(p, t):
+            t = types[0]
+        a = np.array(p, dtype=t)
+        v = (h // 4) % 3
+        if v == 1 and len(p):          # strided view
+            full = np.zeros(2 * len(p), dtype=t)
+            full[::2] = a
+            a = full[::2]
+        elif v == 2:                   # read-only
+            a.flags.writeable = False
+        return a
+    if k == "warr":
+        return np.array(p, dtype=(">i4", ">i8", ">i2")[h % 3])
     if k == "list":
         return list(p)
     return Ellipsis
@@ -234,6 +269,13 @@ def _np_coord(blocks, stack, n=0):
     n = len(blocks[0]) if blocks else n
     dt = np.float64 if sum(sum(b) for b in blocks) % 2 else np.float32
     arr = np.array([[[t, t + 0.5, -t] for t in b] for b in blocks], dtype=dt).reshape(len(blocks), n, 3)
+    v = sum(sum(b) for b in blocks) // 2 % 3
+    if v == 1:
+        arr = np.asfortranarray(arr)                    # Fortran-ordered input
+    elif v == 2:
+        wide = np.zeros((len(blocks), n, 6), dtype=dt)  # strided view
+        wide[:, :, ::2] = arr
+        arr = wide[:, :, ::2]
     return arr if stack else arr[0]
 
 
@@ -485,9 +527,90 @@ class Impl:
         raise RuntimeError("bad-op")
 
 
-def run_impl(case):
+def _run_impl(case):
     impl = Impl()
     return [impl.do(op) for op in case["ops"]]
+
+
+class _Worker:
+    """One persistent forked child executes the real code for all cases (fork once: forking per case is slow).  If the
+    child dies (segfault in a compiled extension) or hangs, that case gets a crash verdict and a new child is started:
+    a crash of the code under test is an oracle failure with the case as failing input, never a dead check."""
+
+    def __init__(self):
+        self.pid = None
+
+    def _spawn(self):
+        import pickle
+        r1, w1 = os.pipe()
+        r2, w2 = os.pipe()
+        pid = os.fork()
+        if pid == 0:
+            os.close(w1)
+            os.close(r2)
+            fin, fout = os.fdopen(r1, "rb"), os.fdopen(w2, "wb")
+            funcs = {"impl": _run_impl, "oracle": _oracle}
+            while True:
+                try:
+                    name, case = pickle.load(fin)
+                except BaseException:  # noqa: BLE001
+                    os._exit(0)
+                try:
+                    res = ("ok", funcs[name](case))
+                except BaseException as e:  # noqa: BLE001
+                    res = ("err", type(e).__name__, str(e)[:300])
+                try:
+                    pickle.dump(res, fout)
+                    fout.flush()
+                except BaseException:  # noqa: BLE001
+                    os._exit(1)
+        os.close(r1)
+        os.close(w2)
+        self.pid, self.fout, self.fin, self.fd = pid, os.fdopen(w1, "wb"), os.fdopen(r2, "rb"), r2
+
+    def _reap(self, kill=False):
+        import signal
+        try:
+            if kill:
+                os.kill(self.pid, signal.SIGKILL)
+            _, status = os.waitpid(self.pid, 0)
+        except OSError:
+            status = 0
+        for f in (self.fout, self.fin):
+            try:
+                f.close()
+            except Exception:  # noqa: BLE001
+                pass
+        self.pid = None
+        return os.WTERMSIG(status) if os.WIFSIGNALED(status) else -1
+
+    def call(self, name, case, timeout=120):
+        import pickle
+        import select
+        if self.pid is None:
+            self._spawn()
+        try:
+            pickle.dump((name, {k: v for k, v in case.items() if not k.startswith("_")}), self.fout)
+            self.fout.flush()
+            ready, _, _ = select.select([self.fd], [], [], timeout)
+            if not ready:
+                self._reap(kill=True)
+                return ("timeout",)
+            return pickle.load(self.fin)
+        except (EOFError, BrokenPipeError, pickle.UnpicklingError, OSError):
+            return ("crash", self._reap())
+
+
+_WORKER = _Worker()
+
+
+def run_impl(case):
+    if os.environ.get("VERIF_C01_INPROCESS"):
+        return _run_impl(case)
+    res = _WORKER.call("impl", case)
+    if res[0] == "ok":
+        return res[1]
+    return ["CRASH:" + "-".join(str(x) for x in res)[:150]]
 
 
 # ------------------------------------------------------------------ reference: a plain list of atom objects
@@ -669,7 +792,7 @@ class Ref:
             kind, p = dec_idx(w[2])
             v = r[w[3]]
             if not c.stack:
-                if not isinstance(v, RA) or kind not in ("int", "mask", "nmask", "arr", "uarr"):
+                if not isinstance(v, RA) or kind not in ("int", "mask", "nmask", "rmask", "arr", "uarr", "warr"):
                     raise Reject("element assignment takes an integer/ndarray index and an Atom")
                 if not c.names <= set(v.ann):
                     raise Reject("atom lacks an annotation of the array")
@@ -893,6 +1016,12 @@ def _coherent(v):
     if not isinstance(v, (AtomArray, AtomArrayStack)):
         return None
     n = v.array_length()
+    depth = v.coord.shape[0] if isinstance(v, AtomArrayStack) else None
+    if isinstance(v, AtomArrayStack):
+        if v.shape != (depth, n) or len(v) != depth or v.stack_depth() != depth:
+            return f"shape {v.shape} / len {len(v)} / stack_depth {v.stack_depth()} for coord shape {v.coord.shape}"
+    elif v.shape != (n,) or len(v) != n or v.coord.shape != (n, 3):
+        return f"shape {v.shape} / len {len(v)} for array length {n}, coord shape {v.coord.shape}"
     for k in v.get_annotation_categories():
         if len(v.get_annotation(k)) != n:
             return f"annotation {k} has length {len(v.get_annotation(k))}, array length {n}"
@@ -932,6 +1061,18 @@ def _shares(a, b):
 
 
 def oracle(case):
+    if os.environ.get("VERIF_C01_INPROCESS"):
+        return _oracle(case)
+    res = _WORKER.call("oracle", case)
+    if res[0] == "ok":
+        return res[1]
+    if res[0] == "err":
+        raise RuntimeError(f"oracle raised {res[1]}: {res[2]}")
+    return [("C01/crash/" + "-".join(str(x) for x in res), f"the real code killed or hung the process ({res}) while "
+             f"executing this case; first ops: {(case.get('ops') or [])[:3]}")]
+
+
+def _oracle(case):
     ops = case.get("ops") or []
     impl, ref = Impl(), Ref()
     for k, op in enumerate(ops):
@@ -958,6 +1099,11 @@ def oracle(case):
             # bonds.pyx: np.frombuffer(mask) needs a C-contiguous mask (the container has bonds, else no error)
             return [("C01/getitem/mask-noncontiguous+bonds/error-ValueError",
                      f"op {k} `{op}`: strided boolean mask on a container with bonds raises ValueError; reference gives {exp[3:][:120]}")]
+        if real == "ERR:ValueError" and exp.startswith("ok ") and w[0] in ("get", "get2") and any(
+                x[0] in "rw" for x in w[3:]):
+            which = "mask-readonly" if any(x[0] == "r" for x in w[3:]) else "index-array-byteswapped"
+            return [(f"C01/getitem/{which}+bonds/error-ValueError",
+                     f"op {k} `{op}`: bonds.pyx typed memoryview rejects the index on a container with bonds; reference gives {exp[3:][:120]}")]
         if real.startswith("ERR:") and exp.startswith("ok "):
             # a wrongly rejected operation
             return [(f"C01/{cls}/error-{real[4:]}", f"op {k} `{op}`: reference gives {exp[3:][:160]}, code raises {real[4:]}")]
@@ -1031,7 +1177,7 @@ class Gen:
         if w[0] in ("get", "get2"):
             src = saved.get(w[2])
             atom_ix = (w[4] if w[0] == "get2" else (w[3] if isinstance(src, RC) and not src.stack else "e"))
-            if atom_ix[0] == "n" and len(atom_ix) > 2 and isinstance(src, RC) and src.bonds is not None:
+            if ((atom_ix[0] == "n" and len(atom_ix) > 2) or atom_ix[0] in "rw") and isinstance(src, RC) and src.bonds is not None:
                 # known finding (strided mask + bonds raises): keep the generator's view in step with the code
                 self.ref.r = saved
                 return False
@@ -1062,6 +1208,8 @@ class Gen:
     # index of one axis of length n
     def index(self, n, kinds=None):
         rng = self.rng
+        if kinds is None and rng.random() < 0.08:
+            kinds = ["rmask", "warr"]          # read-only mask, byte-swapped index array
         kind = rng.choice(kinds or ["int", "int", "slice", "slice", "slice", "mask", "mask", "nmask", "blist",
                                     "arr", "arr", "uarr", "list", "ell"])
         if kind == "int":
@@ -1070,13 +1218,13 @@ class Gen:
             f = lambda: rng.choice(["N", "N", str(rng.randint(-n - 2, n + 2))])  # noqa: E731
             step = rng.choice(["N", "N", "1", "2", "3", "-1", "-1", "-2", "-3", str(n + 1), str(-n - 1), "0" if rng.random() < 0.2 else "1"])
             return f"s{f()}:{f()}:{step}"
-        if kind in ("mask", "nmask", "blist"):
+        if kind in ("mask", "nmask", "blist", "rmask"):
             ln = n if rng.random() < 0.93 else max(0, n + rng.choice([-1, 1, 2]))
             if ln == 0 and n > 0 and kind != "blist" and rng.random() < 0.6:
                 ln = n + 1        # keep the size-0 ndarray mask rare: on a bonded container it is probed in a forked child
             p = rng.choice([0.2, 0.5, 0.8, 1.0])
-            return {"mask": "m", "nmask": "n", "blist": "b"}[kind] + "".join("1" if rng.random() < p else "0" for _ in range(ln))
-        if kind in ("arr", "uarr", "list"):
+            return {"mask": "m", "nmask": "n", "blist": "b", "rmask": "r"}[kind] + "".join("1" if rng.random() < p else "0" for _ in range(ln))
+        if kind in ("arr", "uarr", "list", "warr"):
             ln = rng.choice([0, 1, 2, 2, 3, n, n])
             r = rng.random()
             lo = 0 if kind == "uarr" else -n
@@ -1092,7 +1240,7 @@ class Gen:
                 xs = [rng.randint(lo, n - 1) for _ in range(ln)]
             else:             # out of range
                 xs = [rng.randint(lo - (2 if kind != "uarr" else 0), n + 1) for _ in range(max(1, ln))]
-            return {"arr": "a", "uarr": "u", "list": "l"}[kind] + (toks(xs) if xs else ("_" if kind != "list" or True else ""))
+            return {"arr": "a", "uarr": "u", "list": "l", "warr": "w"}[kind] + (toks(xs) if xs else ("_" if kind != "list" or True else ""))
         return "e"
 
     def bonds(self, n):
@@ -1177,9 +1325,11 @@ class Gen:
             if not c.stack:
                 ats = self.atoms()
                 ok = [a for a in ats if c.names <= set(self.ref.r[a].ann)]
+                if ats and rng.random() < 0.12:
+                    ok = ats              # possibly an atom that lacks a category: refused, nothing may change
                 if not ok:
                     return self.atom(d, c.names)
-                ix = self.index(n, ["int", "int", "int", "mask", "arr", "uarr"] + (["slice", "list"] if self.malformed else []))
+                ix = self.index(n, ["int", "int", "int", "mask", "arr", "uarr", "rmask", "warr", "nmask"] + (["slice", "list"] if self.malformed else []))
                 self.emit(f"set {s} {ix} {rng.choice(ok)}")
             else:
                 # a model (AtomArray) with equal annotations and bonds: build one
